@@ -37,7 +37,7 @@ REQUIRED_BUCKETS = {"quick": ["tpl:boundary", "tpl:affine", "tpl:power", "tpl:pa
                               "same-source-other-defaults", "magnetic", "pd:mesh>100", "pd:amplitude-entry",
                               "translation-helper-in-extra-source-file", "translation-helper-in-extra-source-file:hollow-base",
                               "base-is-plugin-file:base-first", "base-is-plugin-file:reparameterised-first", "base-plugin-revision:2",
-                              "pd:three-loops-mesh>100", "magnetic:on-translated-sld"]}
+                              "pd:three-loops-mesh>100", "magnetic:on-translated-sld", "translation-without-new-parameters"]}
 REQUIRED_BUCKETS["thorough"] = REQUIRED_BUCKETS["quick"]
 
 BASES = ["sphere", "cylinder", "ellipsoid", "core_shell_sphere", "hollow_cylinder", "barbell", "capped_cylinder",
@@ -76,6 +76,9 @@ def gen_cases(tier, seed):
     for k in range(3 if tier == "quick" else 24):
         cases.append({"id": "plugin-base/%03d" % k, "kind": "plugin", "k": 7000 + k, "seed": seed, "base": "plugin", "tpl": "plugin",
                       "group": "pb%d" % k, "lane": "plain", "cost": 2})
+    for k in range(8 if tier == "quick" else 40):
+        cases.append({"id": "constraint/%03d" % k, "kind": "constraint", "k": k, "seed": seed, "base": "constraint", "tpl": "constraint",
+                      "group": "cn%d" % k, "lane": "plain", "cost": 2})
     for k in range(4 if tier == "quick" else 40):
         cases.append({"id": "sldmag/%03d" % k, "kind": "sldmag", "k": 8000 + k, "seed": seed, "base": "sldmag", "tpl": "sldmag",
                       "group": "sm%d" % k, "lane": "plain", "cost": 2})
@@ -241,6 +244,69 @@ def translate(st, newvals, basevals):
     return {k2: v2 for k2, v2 in out.items()}, env
 
 
+CONSTRAINTS = [("ellipsoid", "radius_equatorial = 1.5*radius_polar", {"radius_equatorial": lambda v: 1.5*v["radius_polar"]}),
+               ("hollow_cylinder", "thickness = 0.25*radius", {"thickness": lambda v: 0.25*v["radius"]}),
+               ("core_shell_sphere", "sld_solvent = 6.3", {"sld_solvent": lambda v: 6.3}),
+               ("cylinder", "half = 0.5*length\nradius = 0.2*half", {"radius": lambda v: 0.1*v["length"]})]
+
+
+def run_constraint(case, rec):
+    """A reparameterisation that introduces no new parameter (a pure constraint tying one base parameter to others or fixing
+    it): the tied parameter leaves the table and the model is the base model at the tied value."""
+    from sasmodels import core as sascore, direct_model
+    k = case["k"]
+    base, text, rule = CONSTRAINTS[k % len(CONSTRAINTS)]
+    rng = core.rng_for(case["seed"], PROP, "constraint", k)
+    bi = sas.info(base)
+    try:
+        info = sascore.reparameterize(bi, [], text, name="rtm16_con_%d" % (k % len(CONSTRAINTS)))
+        model = sascore.build_model(info, platform="dll")
+    except Exception as exc:
+        rec.check("reparameterize_accepts_valid_definition", False, {"base": base, "translation": text, "exception": repr(exc)[:800]})
+        return
+    tied = list(rule)
+    names = [p_.name for p_ in info.parameters.kernel_parameters]
+    rec.check("untouched_parameters_preserved", all(t_ not in names for t_ in tied) and
+              [n_ for n_ in names] == [p_.name for p_ in bi.parameters.kernel_parameters if p_.name not in tied],
+              {"base": base, "translation": text, "tied": tied, "table_now": names})
+    pars0 = sas.base_pars(bi, case["seed"]*17 + k)
+    dim = "2d" if (k // len(CONSTRAINTS)) % 2 and bi.parameters.orientation_parameters else "1d"
+    rp = {kk: vv for kk, vv in pars0.items() if kk not in tied}
+    bp = dict(pars0)
+    for t_, fn in rule.items():
+        bp[t_] = float(fn(bp))
+    size = sas.size_scale(bi, bp)
+    if dim == "1d":
+        q = [np.clip(np.exp(rng.uniform(math.log(0.1/size), math.log(8.0/size), 4)), 1e-6, 3.0)]
+    else:
+        qx, qy = sas.q_points_2d(bi, bp, 4, rng)
+        q = [qx, qy]
+        for a_ in [p_.name for p_ in bi.parameters.orientation_parameters]:
+            rp[a_] = bp[a_] = float(rng.uniform(-80, 80))
+    I = np.asarray(direct_model.call_kernel(model.make_kernel(q), dict(rp)), float)
+    Ib = np.asarray(direct_model.call_kernel(sas.build(base).make_kernel(q), dict(bp)), float)
+    sc = float(np.max(np.abs(Ib - bp.get("background", 0.0))))
+    ok = core.close(I, Ib, 1e-10, 1e-12*sc)
+    rec.check("equals_base_at_translated", ok,
+              None if ok else {"base": base, "translation": text, "values": rp, "tied_value": {t_: bp[t_] for t_ in tied},
+                               "observed": I, "base": Ib, "max_rel_err": core.maxrel(I, Ib, 1e-12*sc)})
+    if dim == "1d":
+        Fr = direct_model.call_Fq(model.make_kernel(q), dict(rp, radius_effective_mode=1 if bi.radius_effective_modes else 0))
+        Fb = direct_model.call_Fq(sas.build(base).make_kernel(q), dict(bp, radius_effective_mode=1 if bi.radius_effective_modes else 0))
+        okF = core.close(np.asarray(Fr[1], float), np.asarray(Fb[1], float), 1e-10, 1e-12*float(np.max(np.abs(np.asarray(Fb[1], float))))) \
+            and core.close(float(Fr[2]), float(Fb[2]), 1e-10) and core.close(float(Fr[3]), float(Fb[3]), 1e-10)
+        rec.check("Fq_equals_base_at_translated", okF, None if okF else {"base": base, "translation": text, "observed": Fr[1:], "base_values": Fb[1:]})
+    # the tied parameter is not an argument any more
+    try:
+        direct_model.call_kernel(model.make_kernel(q), dict(rp, **{tied[0]: 1.0}))
+        refused = False
+    except Exception:
+        refused = True
+    rec.check("untouched_parameters_preserved", refused, {"base": base, "translation": text, "note": "the tied parameter %s was accepted as an argument" % tied[0]})
+    rec.bucket("translation-without-new-parameters", "dim:" + dim)
+    rec.set_shape(("constraint", base, k), True)
+
+
 def run_sldmag(case, rec):
     """A base SLD defined through a new SLD-typed parameter (sld = sld_solvent + contrast_sld; sld_core = 0.5*(a + b)) that
     carries magnetisation, evaluated in 2-D: every spin channel sees the translated effective SLD, i.e. the base model with
@@ -386,6 +452,8 @@ def run_case(case, rec):
         return run_plugin(case, rec)
     if case.get("kind") == "sldmag":
         return run_sldmag(case, rec)
+    if case.get("kind") == "constraint":
+        return run_constraint(case, rec)
     from sasmodels import core as sascore, direct_model
     base, k = case["base"], case["k"]
     bi = sas.info(base)
